@@ -3,10 +3,13 @@
   mask_sift (C07).
 
   Oracles (library numerics, never re-implemented):
-    X     : Sig → Sig × Bool      single-IMF extraction `get_next_imf` (IMF, continue flag)
-    mask  : Nat → Sig             the i-th mask of one call,  amp·cos(2π z t + 2π i / nphases)
-    unit  : Rat → Nat → Nat → Sig unit-amplitude mask for frequency f, nphases p, phase index i
-    std   : Sig → Rat             np.std
+    X       : Sig → Sig × Bool    single-IMF extraction `get_next_imf` (IMF, continue flag)
+    cosTurn : Rat → Rat           cos(2π·x), x in turns — the ONLY numerical ingredient of a mask
+    std     : Sig → Rat           np.std
+  The waveform is a definition of the model (`maskPhase`, `unitOf`, `waveMask`): phase i of p is the fraction
+  i/p of a turn, sample t of the unit mask of frequency f is cosTurn (f·t + i/p), the mask is the amplitude
+  times the unit mask.  The loops stay generic in the mask table (`mask : Nat → Sig`,
+  `unit : Rat → Nat → Nat → Sig`); the driver instantiates them with `waveMask` / `unitOf`.
   The worker pool is `Pool.runPool` (EmdModel.Ensemble): `get_next_imf_mask` maps `X` over the
   masked signals with `starmap`, then subtracts the mask matrix and averages over the phases.
 -/
@@ -26,6 +29,20 @@ def getNextImfMaskPool (σ : Schedule) (X : Sig → Sig × Bool) (mask : Nat →
 /-- one worker, jobs in order -/
 def getNextImfMask (X : Sig → Sig × Bool) (mask : Nat → Sig) (p : Nat) (x : Sig) : Sig × Bool :=
   getNextImfMaskPool (Schedule.roundRobin p 1) X mask p x
+
+/-! ## the documented waveform -/
+
+/-- phase i of `nphases = p` equally spaced phases, as a fraction of a turn: `linspace(0, 2π, p+1)[:p][i] = 2π·i/p` -/
+def maskPhase (p i : Nat) : Rat := (i : Rat) / (p : Rat)
+
+/-- unit-amplitude mask of frequency `f` (cycles per sample), phase `i` of `p`, on `n` samples:
+    sample `t` is `cos(2π·f·t + 2π·i/p) = cosTurn (f·t + i/p)` -/
+def unitOf (cosTurn : Rat → Rat) (n : Nat) (f : Rat) (p i : Nat) : Sig :=
+  (List.range n).map fun (t : Nat) => cosTurn (f * (t : Rat) + maskPhase p i)
+
+/-- the i-th mask of `get_next_imf_mask(X, z, amp, nphases=p)`: `amp · cos(2π z t + 2π i / p)` -/
+def waveMask (cosTurn : Rat → Rat) (n : Nat) (z amp : Rat) (p i : Nat) : Sig :=
+  Sig.smul amp (unitOf cosTurn n z p i)
 
 inductive AmpMode | abs | ratioSig | ratioImf
   deriving DecidableEq
@@ -115,11 +132,40 @@ open Ensemble (lookupTbl close)
 
 def absR (v : Rat) : Rat := if v < 0 then -v else v
 
-/-- unit-mask table: (frequency, phase index, samples) -/
-def lookupUnit (ftol : Rat) (tbl : List (Rat × Nat × Sig)) (f : Rat) (i : Nat) : Sig :=
-  match tbl.find? (fun e => decide (absR (e.1 - f) ≤ ftol) && e.2.1 == i) with
-  | some e => e.2.2
-  | none => []
+/-- value returned by the driver's cosine oracle for an argument the table does not cover (no cosine is 2) -/
+def cosMiss : Rat := 2
+
+/-- The recorded cosine table as points of the oracle: entry `(f, i, v)` holds `v[t] = cos(2π(f·t + i/p))`, i.e. the
+    value of `cosTurn` at the point `f·t + i/p`.  Sorted by argument. -/
+def cosPoints (p : Nat) (tbl : List (Rat × Nat × Sig)) : Array (Rat × Rat) :=
+  let pts : Array (Rat × Rat) := tbl.foldl (fun acc e =>
+    let ph := maskPhase p e.2.1
+    e.2.2.zipIdx.foldl (fun acc (vt : Rat × Nat) => acc.push (e.1 * (vt.2 : Rat) + ph, vt.1)) acc) #[]
+  pts.qsort (fun a b => a.1 < b.1)
+
+/-- smallest index whose argument is ≥ `y` (binary search on the sorted points) -/
+def lowerBound (pts : Array (Rat × Rat)) (y : Rat) : Nat → Nat → Nat → Nat
+  | 0, lo, _ => lo
+  | fuel + 1, lo, hi =>
+    if lo < hi then
+      let mid := (lo + hi) / 2
+      match pts[mid]? with
+      | some e => if e.1 < y then lowerBound pts y fuel (mid + 1) hi else lowerBound pts y fuel lo mid
+      | none => lo
+    else lo
+
+/-- The cosine oracle of the driver: `cosTurn x` is the recorded value at a point within `xtol` of `x` (the model
+    computes the frequency ladder in exact rationals, the code in floats: the points differ by rounding; `xtol = 0`
+    where the frequency is given) — a single function of the argument, whatever mask asks. -/
+def cosLookup (xtol : Rat) (pts : Array (Rat × Rat)) (x : Rat) : Rat :=
+  let k := lowerBound pts (x - xtol) (pts.size + 1) 0 pts.size
+  match pts[k]? with
+  | some e => if e.1 ≤ x + xtol then e.2 else cosMiss
+  | none => cosMiss
+
+/-- does the table hold the masks of frequency `f` (within `ftol`) for all `p` phases on `n` samples? -/
+def coversFreq (ftol : Rat) (tbl : List (Rat × Nat × Sig)) (n p : Nat) (f : Rat) : Bool :=
+  (List.range p).all fun i => tbl.any fun e => decide (absR (e.1 - f) ≤ ftol) && e.2.1 == i && e.2.2.length == n
 
 def parseUnits (vs : List (Option (List Rat))) : Nat → Nat → Option (List (Rat × Nat × Sig))
   | _, 0 => some []
@@ -170,15 +216,22 @@ def handle (o : Op) : Option String :=
       let some p := o.nat? "p" | return "bad-op"
       let some tol := o.rat? "tol" | return "bad-op"
       let some rot := o.nat? "rot" | return "bad-op"
+      let some z := o.rat? "z" | return "bad-op"
+      let some amp := o.rat? "amp" | return "bad-op"
       let some x := o.vec? 0 | return "bad-op"
-      let some masks := Ensemble.takeVecs o.vecs 1 p | return "bad-op"
+      -- the cosine table of this call: vector i holds cos(2π(z·t + i/p)), t = 0 … n-1
+      let some cosv := Ensemble.takeVecs o.vecs 1 p | return "bad-op"
       let some tbl := parseX o.vecs (1 + p) p | return "bad-op"
       if p = 0 then return "err ValueError"
-      if masks.any (fun m => m.length ≠ x.length) then return "bad-op"
-      if masks.any (fun m => !Ensemble.hasEntry tol tbl (Sig.add x m)) then
+      if cosv.any (fun m => m.length ≠ x.length) then return "bad-op"
+      let cosTurn := cosLookup 0 (cosPoints p ((List.range p).zip cosv |>.map fun (i, v) => (z, i, v)))
+      let mask := waveMask cosTurn x.length z amp p
+      if (List.range p).any (fun i => (unitOf cosTurn x.length z p i).contains cosMiss) then
+        return "oracle-desync cos-table-misses-a-point"
+      if (List.range p).any (fun i => !Ensemble.hasEntry tol tbl (Sig.add x (mask i))) then
         return "oracle-desync extraction-table-misses-a-masked-signal"
       let X := lookupTbl tol tbl (([] : Sig), false)
-      let r := getNextImfMaskPool (rotSchedule p rot 0) X (fun i => masks[i]?.getD []) p x
+      let r := getNextImfMaskPool (rotSchedule p rot 0) X mask p x
       return s!"ok flag={fmtBool r.2} | {fmtVec r.1}"
   | "MASKFREQS" => some <| Id.run do
       let some cap := o.nat? "cap" | return "bad-op"
@@ -238,11 +291,14 @@ def handle (o : Op) : Option String :=
         | _ => return "bad-op"
       let X := lookupTbl tol xs (([] : Sig), false)
       let std := lookupTbl tol stds (-1)
-      let unit := fun f (_ : Nat) i => lookupUnit ftol units f i
+      -- the masks are the model's own waveform over the recorded cosine values
+      let unit := unitOf (cosLookup ftol (cosPoints p units)) x.length
       let cfg : Cfg := { mode, amp, p, thresh }
       match maskSift (rotSchedule p rot) X unit std cfg fsrc cap x with
       | .error e => return s!"err {e.toString}"
       | .ok (cols, freqs) =>
+        if (freqs.take cols.length).any (fun f => !coversFreq ftol units x.length p f) then
+          return "oracle-desync cos-table-misses-a-mask-frequency"
         if cols.any (fun c => c.length ≠ x.length) then
           return "oracle-desync mask-or-extraction-table-misses-an-input"
         let needStd := match mode with
